@@ -2,7 +2,7 @@
 # tools/try_patch.sh <patch.diff> <check-id>...   apply a source patch to /repo, run the repo's own
 # suite and the given quick checks against it, then ALWAYS restore /repo. Prints one line per step.
 set -u
-patch="$1"; shift
+patch="$(readlink -f "$1")"; shift
 cd /repo || exit 2
 if ! git diff --quiet; then echo "refusing: /repo has uncommitted changes"; exit 2; fi
 if ! git apply --check "$patch" 2>/dev/null; then echo "patch does not apply"; exit 2; fi
